@@ -22,7 +22,9 @@ impl<T> FromConcurrentStream<T> for Vec<T> {
         S: IntoConcurrentStream<Item = T>,
     {
         let stream = iter.into_co_stream();
-        let mut output = Vec::with_capacity(stream.size_hint().1.unwrap_or_default());
+        // pre-allocate from the lower bound: the upper bound is only an upper
+        // bound and may be far larger than what the stream goes on to yield
+        let mut output = Vec::with_capacity(stream.size_hint().0);
         stream.drive(VecConsumer::new(&mut output)).await;
         output
     }
@@ -34,7 +36,7 @@ impl<T, E> FromConcurrentStream<Result<T, E>> for Result<Vec<T>, E> {
         S: IntoConcurrentStream<Item = Result<T, E>>,
     {
         let stream = iter.into_co_stream();
-        let mut output = Ok(Vec::with_capacity(stream.size_hint().1.unwrap_or_default()));
+        let mut output = Ok(Vec::with_capacity(stream.size_hint().0));
         stream.drive(ResultVecConsumer::new(&mut output)).await;
         output
     }
